@@ -745,14 +745,24 @@ pub fn run_check(pc: &PropertyCheck, tier: Tier, verif_dir: &str) -> i32 {
     }
     for r in &st.violations {
       let key = (r.violation.rule.clone(), r.violation.site.clone());
-      if !seen.insert(key) || shrunk >= 12 {
+      if !seen.insert(key) {
+        continue;
+      }
+      // every distinct signature is classified; a listed one needs no
+      // minimisation, and only the first twelve new ones are minimised (the
+      // others are reported as they were found)
+      if let Some(k) = match_known(&known, pc.id, s.name(), &r.violation) {
+        let line = format!("KNOWN-FINDING: property={} {} [scenario={} rule={} site={}]", pc.id, k.what, s.name(), r.violation.rule, r.violation.site);
+        if !known_lines.contains(&line) {
+          known_lines.push(line);
+        }
         continue;
       }
       shrunk += 1;
-      let budget = if tier == Tier::Quick { 800 } else { 1500 };
+      let budget = if shrunk > 12 { 0 } else if tier == Tier::Quick { 800 } else { 1500 };
       // a candidate must stay on the same side of the known/unknown line, so that
       // minimisation can never turn a new violation into a listed one
-      let orig_known = match_known(&known, pc.id, s.name(), &r.violation).is_some();
+      let orig_known = false;
       let keep = |v: &Violation| match_known(&known, pc.id, s.name(), v).is_some() == orig_known;
       let (min_case, v, used) = shrink(s.as_ref(), &r.case, &r.violation.rule, budget, &keep);
       let o = run_guarded(s.as_ref(), &min_case).ok();
